@@ -336,7 +336,8 @@ def exits_returning(prog, fn, kind, **kw):
                     yield p, conj
         elif kind == "NZ":
             if p.may_return_nonzero():
-                yield p, []
+                for conj in T.nonzero_conditions(p.ret, p.facts):
+                    yield p, conj
         else:
             v = kind[1]
             iv = p.facts.interval(p.ret)
